@@ -57,7 +57,9 @@ def main():
         site = (f.get("panic") or {}).get("func", "")
         c.report({"kind": f["kind"], "what": f["what"], "chain": f["chain"], "entry": f["entry"], "required": f["required"],
                   "observed": f["observed"], "files": f["files"], "site": site, "panic": f.get("panic")})
-    c.cov.update({"states": r.distinct + stats["pairs_states"], "transitions": r.generated + stats["pairs_states"],
+    mr = model_refines(c)
+    c.cov["design_level"] = mr
+    c.cov.update({"states": r.distinct + stats["pairs_states"] + mr["states"], "transitions": r.generated + stats["pairs_states"],
                   "traces_validated_against_impl": out["cases"] + g["runs"], "exhaustive": True,
                   "malformed_cases": len(bad), "gating_configurations": len(gcases), "gating_runs": g["runs"],
                   "pipeline_states": r.distinct, **stats})
